@@ -844,7 +844,7 @@ def gen_cli(rng):
             c["productDir"] = rng.choice([["proddir", nm], ["proddir", nm], ["missing"], ["empty"]])
             k = rng.random()
             if k < 0.4:
-                c["args"] = [rng.choice([nm, nm, "othername"])]
+                c["args"] = [rng.choice([nm, "othername"])]
             elif k < 0.7:
                 c["args"] = [nm, rng.choice(["1", "9.9"])]
             if rng.random() < 0.2:
@@ -1375,6 +1375,23 @@ def evaluate(ctx, cases):
                     continue
                 compare_shellf_model(ctx, sub, st["shellsF"], sheval[(i, j)], "emitted", [], root=root)
                 failed = st["status"] != 0 or st["cmds"] == ["false"] or not st["reached"]
+                call = c["calls"][j]
+                declared = [(p["name"], p["version"]) for p in c["products"]]
+                # from the structure of the case alone: a product or version that does not exist cannot be set up
+                must_fail = bool(call["args"]) and not call["productDir"] and not (call["tablefile"] and not call["unsetup"]) and \
+                    not (call["help"] or call["version"] or call["list"]) and not call["unsetup"] and \
+                    not any(n == call["args"][0] and (len(call["args"]) < 2 or v == call["args"][1]) for n, v in declared)
+                # ... and neither can a product that has no table file in the directory given with -r
+                if call["productDir"] and call["productDir"][0] == "proddir" and call["args"] and not call["tablefile"] and \
+                        call["args"][0] != call["productDir"][1] and not (call["help"] or call["version"] or call["list"]):
+                    must_fail = True
+                if must_fail:
+                    ctx.hist("cli:request-that-must-fail")
+                    for sh, g in st["shellsF"].items():
+                        if not isinstance(g, dict) or g["status"] == 0 or g["env"] != visible(st["base"]):
+                            ctx.fail("failed_request_leaves_shell_untouched_and_reports_failure", sub,
+                                     _subst({"stdout": st["stdout"], "status": st["status"]}, root), _subst(m, root),
+                                     note="%s: the request cannot succeed, yet after sourcing: %s" % (sh, common.jdump(_subst(g, root))[:300]))
                 if failed:
                     # oracle (ii): whatever went wrong, the caller's shell is untouched; when something was printed it is
                     # a failing command
